@@ -12,7 +12,7 @@ func baseWeights() map[string]int {
 		"burn_regen": 2, "unimplemented": 1, "bank_send": 8,
 		"basket_create": 4, "put": 14, "take": 12, "basket_fee": 2, "update_curator": 2, "update_date_criteria": 3,
 		"sell": 14, "update_sell": 10, "cancel_sell": 5, "buy": 16, "basket_token_market": 4, "allowed_denom": 3, "fee_params": 3, "fee_pool_send": 3,
-		"anchor": 3, "attest": 3, "define_resolver": 2, "register_resolver": 3, "resolver_combo": 1, "class_combo": 1, "batch_combo": 2, "market_combo": 2, "prefix_project": 1, "sell_all_then_buy": 2,
+		"anchor": 3, "attest": 3, "define_resolver": 2, "register_resolver": 3, "resolver_combo": 1, "class_combo": 1, "creator_combo": 1, "batch_combo": 2, "market_combo": 2, "prefix_project": 1, "sell_all_then_buy": 2,
 	}
 }
 
@@ -47,7 +47,7 @@ func ProfileFor(prop string) Profile {
 	case "C08":
 		p := tilt("role-churn", map[string]int{"update_class_admin": 6, "update_class_issuers": 6, "update_class_metadata": 4, "update_project_admin": 6, "update_project_metadata": 4,
 			"update_batch_metadata": 4, "seal": 3, "mint": 3, "bridge_receive_bound": 3, "update_curator": 8, "allowlist": 4, "class_creator": 4, "class_fee": 3, "bridge_chain": 3, "basket_fee": 4, "update_date_criteria": 3,
-			"allowed_denom": 3, "fee_params": 3, "fee_pool_send": 3, "add_credit_type": 3, "update_sell": 2, "cancel_sell": 3, "register_resolver": 5, "define_resolver": 3, "resolver_combo": 6, "class_combo": 5, "create_class": 2, "create_project": 2})
+			"allowed_denom": 3, "fee_params": 3, "fee_pool_send": 3, "add_credit_type": 3, "update_sell": 2, "cancel_sell": 3, "register_resolver": 5, "define_resolver": 3, "resolver_combo": 6, "class_combo": 5, "creator_combo": 4, "create_class": 2, "create_project": 2})
 		p.Hostile = 0.45
 		return p
 	case "C13":
@@ -56,7 +56,7 @@ func ProfileFor(prop string) Profile {
 	case "C14", "C17":
 		p := tilt("creation-heavy", map[string]int{"create_class": 6, "create_project": 8, "create_batch": 5, "bridge_receive": 3, "add_credit_type": 5, "basket_create": 3,
 			// messages that delete or re-key parent rows while children exist (references must keep resolving)
-			"allowed_denom": 4, "bridge_chain": 2, "update_class_issuers": 2, "class_creator": 2, "prefix_project": 6})
+			"allowed_denom": 4, "bridge_chain": 2, "update_class_issuers": 2, "class_creator": 2, "prefix_project": 6, "class_combo": 4})
 		p.MaxClasses, p.MaxProjects, p.MaxBatches, p.MaxBaskets = 130, 260, 320, 30
 		return p
 	case "C16":
